@@ -493,9 +493,25 @@ class DataFrameSchemaBackend(PandasSchemaBackend):
         # series is relatively slow due to copying the index for
         # each one. Coerce dtypes afterwards instead.
         for c in missing_obj.columns:
-            missing_obj[c] = missing_cols_schema[c].dtype.try_coerce(
-                missing_obj[c]
-            )
+            dtype = missing_cols_schema[c].dtype
+            if dtype is None:
+                # no declared data type: keep the default values as they are
+                continue
+            try:
+                missing_obj[c] = dtype.try_coerce(missing_obj[c])
+            except ParserError as exc:
+                raise SchemaError(
+                    schema=missing_cols_schema[c],
+                    data=missing_obj[c],
+                    message=(
+                        f"Error while coercing the default value of missing "
+                        f"column '{c}' to type {dtype}: {exc}:\n"
+                        f"{exc.failure_cases}"
+                    ),
+                    failure_cases=c,
+                    check=f"coerce_dtype('{dtype}')",
+                    reason_code=SchemaErrorReason.DATATYPE_COERCION,
+                ) from exc
 
         return missing_obj
 
